@@ -93,6 +93,9 @@ func newResult(t reflect.Type, opts resultOptions) (result, error) {
 			for _, as := range opts.As {
 				ifaceType := reflect.TypeOf(as).Elem()
 				if ifaceType == t {
+					// The result's own type is listed: keep it among the
+					// keys (it needs no Implements check).
+					asTypes = append(asTypes, ifaceType)
 					continue
 				}
 				if !t.Implements(ifaceType) {
@@ -293,7 +296,9 @@ func newResultSingle(t reflect.Type, opts resultOptions) (resultSingle, error) {
 		if ifaceType == t {
 			// Special case:
 			//   c.Provide(func() io.Reader, As(new(io.Reader)))
-			// Ignore instead of erroring out.
+			// Accept instead of erroring out: the value stays available
+			// under its own type, next to any other interface listed.
+			asTypes = append(asTypes, ifaceType)
 			continue
 		}
 		if !t.Implements(ifaceType) {
